@@ -20,7 +20,16 @@ pub fn c02_scenario(seed: u64, idx: u64) -> Scenario {
     let overlapped = rng.chance(2, 3);
     for i in 0..n {
         let (p, class) = paths[rng.below(paths.len())].clone();
-        let mut c = Conn::simple(i, if overlapped { 0 } else { i as u32 }, get(&p), class);
+        // now and then the same path was asked for with a Range header just before
+        let bytes = if i % 2 == 1 && rng.chance(1, 2) {
+            let prev = crate::wire::view_request(&sc.conns[i - 1].request.0).target;
+            if rng.chance(1, 2) { get(&prev) } else { req("GET", &prev, &[("Range", *rng.pick(&["bytes=0-3", "bytes=2-", "bytes=-4", "bytes=0-1,3-4"]))], b"") }
+        } else if rng.chance(1, 6) {
+            req("GET", &p, &[("Range", *rng.pick(&["bytes=0-3", "bytes=2-", "bytes=-4", "bytes=0-1,3-4"]))], b"")
+        } else {
+            get(&p)
+        };
+        let mut c = Conn::simple(i, if overlapped { 0 } else { i as u32 }, bytes, class);
         if rng.chance(1, 5) {
             transport_fault(&mut rng, &mut c, &["short_write"]);
         }
@@ -62,8 +71,24 @@ pub fn range_value(l: u64, rng: &mut crate::util::Rng) -> String {
         8 => 3,
         _ => rng.range(4, 6),
     };
-    let mut specs = vec![];
+    let mut specs: Vec<String> = vec![];
+    let mut last_inside: Option<(u64, u64)> = None;
     for _ in 0..k {
+        // chained specs: the next one starts on, right after or before the previous one's last byte
+        if let Some((pa, pb)) = last_inside {
+            if rng.chance(1, 3) && l > 0 {
+                let a = match rng.below(4) {
+                    0 => pb,
+                    1 => (pb + 1).min(l - 1),
+                    2 => pa,
+                    _ => pb.saturating_sub(1),
+                };
+                let b = (a + rng.below(8) as u64).min(l - 1);
+                specs.push(format!("{}-{}", a, b));
+                last_inside = Some((a, b));
+                continue;
+            }
+        }
         // bias towards specs that lie inside the file
         let inside = rng.chance(3, 5) && l > 0;
         let s = match rng.below(3) {
@@ -71,6 +96,7 @@ pub fn range_value(l: u64, rng: &mut crate::util::Rng) -> String {
                 if inside {
                     let a = rng.below(l as usize) as u64;
                     let b = a + rng.below((l - a) as usize) as u64;
+                    last_inside = Some((a, b));
                     format!("{}-{}", a, b)
                 } else {
                     format!("{}-{}", offset_pool(l, rng), offset_pool(l, rng))
